@@ -97,13 +97,17 @@ pub fn mut_alphabet(a: Alpha, c: u32) -> Vec<Op> {
                         v.push(Op::Open { d, name, mode, f });
                     }
                 }
+                // the cluster-aligned file: append and truncate
+                for mode in [M_APPEND, M_TRUNC] {
+                    v.push(Op::Open { d: 0, name: 26, mode, f });
+                }
                 for n in [1, c + 1] {
                     v.push(Op::Write { f, n });
                 }
                 v.push(Op::Flush { f });
                 v.push(Op::Close { f });
             }
-            for (d, name) in [(0u8, 0u8), (0, 2), (1, 0), (1, 1)] {
+            for (d, name) in [(0u8, 0u8), (0, 2), (1, 0), (1, 1), (0, 26), (0, 4)] {
                 v.push(Op::Delete { d, name });
             }
             for (d, name) in [(0u8, 7u8), (1, 7)] {
@@ -135,8 +139,10 @@ pub fn mut_alphabet(a: Alpha, c: u32) -> Vec<Op> {
                 v.push(Op::Write { f, n: c + 1 });
                 v.push(Op::Close { f });
             }
+            v.push(Op::Open { d: 0, name: 26, mode: M_APPEND, f: 0 });
             v.push(Op::Delete { d: 0, name: 0 });
             v.push(Op::Delete { d: 1, name: 1 });
+            v.push(Op::Delete { d: 0, name: 26 });
             v.push(Op::Mkdir { d: 0, name: 7 });
             v.push(Op::Mkdir { d: 1, name: 7 });
         }
@@ -340,7 +346,7 @@ impl Oracle for WriteBounds {
                     push("fat/high-nibble-changed".into(), format!("FAT32 entry {} reserved bits changed {:#x} -> {:#x}", c, a[c], b[c]));
                 }
                 if refat::low(v, a[c]) != 0 {
-                    if let Some(o) = vpre.tree.owner.get(&(c as u32)) {
+                    if let Some(o) = vpre.tree.owner_of(c as u32) {
                         if !allowed_owner(o) {
                             push("fat/entry-of-foreign-chain-changed".into(), format!("FAT entry {} belongs to {} but was changed {:#x} -> {:#x}", c, o, a[c], b[c]));
                         }
@@ -442,7 +448,7 @@ impl Oracle for WriteBounds {
                 let in_slot = slots.iter().any(|(sb, so)| *sb == b && i >= *so && i < *so + 32);
                 let in_range = base.map(|o| o + i as u64 >= range.0 && o + (i as u64) < range.1).unwrap_or(false);
                 if !in_slot && !in_range {
-                    let owner = if b >= data_lo { vpre.tree.owner.get(&(2 + (b - data_lo) / v.spc)).cloned() } else { Some("FAT16 root directory".into()) };
+                    let owner = if b >= data_lo { vpre.tree.owner_of(2 + (b - data_lo) / v.spc).cloned() } else { Some("FAT16 root directory".into()) };
                     let kind = if base.is_some() { "data/file-bytes-outside-requested-range" } else if slots.iter().any(|(sb, _)| *sb == b) { "data/neighbouring-directory-slot-changed" } else { "data/stray-write" };
                     push(kind.into(), format!("block {} byte {} changed ({:#04x} -> {:#04x}); block belongs to {:?}; requested file range {:?}", b, i, p[i], q[i], owner, range));
                     break;
@@ -563,7 +569,12 @@ impl Oracle for FatCopies {
         let v = &vcx.vol;
         if v.nfats > 1 {
             // byte-identical copies (whole FAT region including slack)
-            let differs = |img: &Image| -> Option<u32> { (0..v.fatsz).find(|&s| img.rd(v.fat_block(0, s)) != img.rd(v.fat_block(1, s))) };
+            // the formatter writes identical copies (checked by the self-test), so only blocks written since can differ
+            let differs = |img: &Image| -> Option<u32> {
+                let lo = v.fat_block(0, 0);
+                let hi = lo + 2 * v.fatsz;
+                img.overlay.range(lo..hi).map(|(b, _)| (*b - lo) % v.fatsz).find(|&s| img.rd(v.fat_block(0, s)) != img.rd(v.fat_block(1, s)))
+            };
             if let Some(s) = differs(post) {
                 if differs(pre).is_none() {
                     let okk = if st.res.is_ok() { "ok" } else { "err" };
@@ -801,7 +812,8 @@ fn fs_scenarios(tier: &str, prefix: &'static str, alphabet: Alpha, moving_clock:
     let frees: &[Option<usize>] = if quick { &[None, Some(1)] } else { &[None, Some(3), Some(2), Some(1), Some(0)] };
     for &k in kinds {
         for &fr in frees {
-            let mut o = base_opts(k, fr, if quick { 3 } else { 4 }, alphabet);
+            let qd = if prefix == "durable" { 4 } else { 3 };
+            let mut o = base_opts(k, fr, if quick { qd } else { qd + 1 }, alphabet);
             o.moving_clock = moving_clock;
             if alphabet == Alpha::MutateFail && !k.geom().fat32 {
                 o.root_free_slots = Some(1);
@@ -818,7 +830,7 @@ pub fn c03_def() -> HistProp {
         level: "model_checking",
         scenarios: |t| fs_scenarios(t, "fsck", Alpha::MutateFail, false),
         oracles: || vec![Box::new(Fsck)],
-        budget_s: |t| if t == "quick" { 45 } else { 3000 },
+        budget_s: |t| if t == "quick" { 45 } else { 900 },
         max_states: 3_000_000,
         assumptions: &["refat's fsck is the structural reference; checked on the raw image after every call and on a scratch replay with all open files flushed"],
     }
@@ -830,7 +842,7 @@ pub fn c04_def() -> HistProp {
         level: "model_checking",
         scenarios: |t| fs_scenarios(t, "bounds", Alpha::MutateFail, false),
         oracles: || vec![Box::new(WriteBounds)],
-        budget_s: |t| if t == "quick" { 45 } else { 3000 },
+        budget_s: |t| if t == "quick" { 45 } else { 900 },
         max_states: 3_000_000,
         assumptions: &["a victim partition lies directly behind the volume; the device accepts and records out-of-volume writes so the oracle can judge them"],
     }
@@ -843,7 +855,7 @@ fn space_scenarios(tier: &str, prefix: &'static str) -> Vec<(String, ScenMaker)>
     let frees: &[usize] = if quick { &[1, 2] } else { &[0, 1, 2, 3] };
     for &k in kinds {
         for &fr in frees {
-            let o = base_opts(k, Some(fr), if quick { 5 } else { 7 }, Alpha::Space);
+            let o = base_opts(k, Some(fr), if quick { 6 } else { 7 }, Alpha::Space);
             out.push(maker(o, prefix));
         }
     }
@@ -879,7 +891,7 @@ pub fn c05_def() -> HistProp {
                 }),
             ]
         },
-        budget_s: |t| if t == "quick" { 45 } else { 3000 },
+        budget_s: |t| if t == "quick" { 45 } else { 900 },
         max_states: 3_000_000,
         assumptions: &["fills start at the end of the file, so capacity = room in the last cluster + free clusters x cluster size", "leaks are judged differentially against the pre-state with all open files flushed"],
     }
@@ -917,7 +929,7 @@ pub fn c16_def() -> HistProp {
         level: "model_checking",
         scenarios: c16_scenarios,
         oracles: || vec![Box::new(FatCopies), Box::new(StaleTwin), Box::new(TwinOracle::default())],
-        budget_s: |t| if t == "quick" { 45 } else { 3000 },
+        budget_s: |t| if t == "quick" { 45 } else { 900 },
         max_states: 3_000_000,
         assumptions: &["free-count truthfulness is judged as: stored count minus count at mount = change of the number of free FAT entries by scan", "a history on a volume with a stale record must return the same results as on the twin volume with a correct record"],
     }
@@ -928,7 +940,7 @@ pub fn c02_def() -> HistProp {
         id: "C02",
         level: "model_checking",
         scenarios: |t| {
-            let mut v = fs_scenarios(t, "durable", Alpha::Mutate, true).into_iter().filter(|(n, _)| n.contains("freemany") || n.contains("free3")).collect::<Vec<_>>();
+            let mut v = fs_scenarios(t, "durable", Alpha::Mutate, true).into_iter().filter(|(n, _)| n.contains("freemany") || n.contains("free3") || n.contains("free1")).collect::<Vec<_>>();
             if t != "quick" {
                 // deeper on a reduced volume set
                 let mut o = base_opts(VolKind::V16a, None, 5, Alpha::Mutate);
@@ -939,7 +951,7 @@ pub fn c02_def() -> HistProp {
             v
         },
         oracles: || vec![Box::new(Durable)],
-        budget_s: |t| if t == "quick" { 45 } else { 3000 },
+        budget_s: |t| if t == "quick" { 45 } else { 900 },
         max_states: 2_000_000,
         assumptions: &["the remount oracle runs at every state on a snapshot of the medium, through a fresh VolumeManager and through refat", "clock values have even seconds; zero-length writes are not in the alphabet"],
     }
@@ -1102,7 +1114,7 @@ fn crash_scenarios(tier: &str, prefix: &'static str) -> Vec<(String, ScenMaker)>
             if quick && fr.is_some() {
                 continue;
             }
-            let mut o = base_opts(k, fr, if quick { 3 } else { 4 }, Alpha::Mutate);
+            let mut o = base_opts(k, fr, if quick { 4 } else { 5 }, Alpha::Mutate);
             o.sub_free_slots = sub_free;
             o.victim = false;
             out.push(maker(o, prefix));
@@ -1117,7 +1129,7 @@ pub fn c09_def() -> HistProp {
         level: "fault_enumeration",
         scenarios: |t| crash_scenarios(t, "crash-dur"),
         oracles: || vec![Box::new(CrashDurability)],
-        budget_s: |t| if t == "quick" { 45 } else { 3000 },
+        budget_s: |t| if t == "quick" { 45 } else { 900 },
         max_states: 2_000_000,
         assumptions: &["block writes are atomic and ordered (as the property assumes)", "every prefix of the write log of every explored transition is a crash image"],
     }
@@ -1129,7 +1141,7 @@ pub fn c10_def() -> HistProp {
         level: "fault_enumeration",
         scenarios: |t| crash_scenarios(t, "crash"),
         oracles: || vec![Box::new(CrashConsistency)],
-        budget_s: |t| if t == "quick" { 45 } else { 3000 },
+        budget_s: |t| if t == "quick" { 45 } else { 900 },
         max_states: 2_000_000,
         assumptions: &["block writes are atomic and ordered (as the property assumes)", "free clusters carry a stale pattern of plausible directory entries so exposure of uninitialised contents is visible", "permitted residue: allocated-but-unreferenced clusters and a size not yet updated"],
     }
